@@ -271,8 +271,9 @@ MATRIX_IDENTITY: Matrix = (1, 0, 0, 1, 0, 0)
 
 def parse_rect(o: Any) -> Rect:
     try:
-        (x0, y0, x1, y1) = o
-        return float(x0), float(y0), float(x1), float(y1)
+        (x0, y0, x1, y1) = (float(v) for v in o)
+        # A rectangle may be given by any two diagonally opposite corners
+        return min(x0, x1), min(y0, y1), max(x0, x1), max(y0, y1)
     except ValueError:
         raise PDFValueError("Could not parse rectangle")
 
